@@ -69,3 +69,38 @@ contract(F, "TypeNormalizer._unfold_union_args", props=["C15"], params={"self": 
              "ite(" + IS_U.format(i="i") + ", exists(lambda m: 0 <= m and m < len(norm_args[i].args) and result[k] is norm_args[i].args[m]), result[k] is norm_args[i]))))",
          ])},
          scenarios=_unfold_scenarios, cover=["returned"])
+
+
+# ---- Union normalisation, step 3: all Literal members are merged into ONE Literal member placed last; every other member is kept,
+# in order (C15: "literal unions merged or split").  `_create_norm_literal` is abstracted here (typed de-duplication: `_dedup` above
+# and the bounded check of props/C15.py).
+def _merge_scenarios(mod):
+    import typing as t
+    out = []
+    pools = [[int, str], [t.Literal[1], int], [t.Literal[1], int, t.Literal["a", 2]], [t.Literal[0], t.Literal[False]], [], [t.Literal["x"]],
+             [bytes, t.Literal[1, 2], t.List[int], t.Literal[3]]]
+    for hints in pools:
+        def factory(hints=hints):
+            n = mod.TypeNormalizer(mod.ImplicitParamsGetter())
+            return mod.TypeNormalizer._merge_literals, {"self": n, "args": [n.normalize(h) for h in hints]}, {}
+        out.append((repr(hints).replace("typing.", ""), factory))
+    return out
+
+
+IS_L = "py_eq(args[{i}].origin, Literal)"
+contract(F, "TypeNormalizer._merge_literals", props=["C15"], params={"self": ("const", None), "args": "sym"},
+         consts={"Literal": __import__("typing").Literal},
+         opaque={"_create_norm_literal": (lambda m: m._create_norm_literal, [])},
+         post={
+             "raises-nothing": "returned",
+             "keeps-other-members": ("implies(returned, forall(lambda i: implies(0 <= i and i < len(args) and not " + IS_L.format(i="i") + ", "
+                                     "exists(lambda k: 0 <= k and k < len(result) and result[k] is args[i]))))"),
+             # everything except possibly the last element is an original non-literal member: no literal member survives unmerged
+             "literals-only-merged": ("implies(returned, forall(lambda k: implies(0 <= k and k < len(result) - 1, exists(lambda i: 0 <= i and i < len(args) "
+                                      "and result[k] is args[i] and not " + IS_L.format(i="i") + "))))"),
+         },
+         loops={0: LoopSpec(inv=[
+             "forall(lambda i: implies(0 <= i and i < _i and not " + IS_L.format(i="i") + ", exists(lambda k: 0 <= k and k < len(result) and result[k] is args[i])))",
+             "forall(lambda k: implies(0 <= k and k < len(result), exists(lambda i: 0 <= i and i < _i and result[k] is args[i] and not " + IS_L.format(i="i") + ")))",
+         ])},
+         scenarios=_merge_scenarios, cover=["returned"])
